@@ -12,11 +12,23 @@ class InjectedFault(Exception):
         self.fault_id = fault_id
 
 
+class InjectedInterrupt(BaseException):
+    """Like InjectedFault but not an Exception subclass (what Ctrl-C / SystemExit look like)."""
+
+    def __init__(self, fault_id):
+        super().__init__("injected interrupt %s" % fault_id)
+        self.fault_id = fault_id
+
+
+FAULTS = (InjectedFault, InjectedInterrupt)
+
+
 class FaultCounter:
     """Shared by all faulty renderables of one run: raises at the k-th render call
     (once, or from k on)."""
 
-    def __init__(self, k=None, persistent=False, fault_id="F"):
+    def __init__(self, k=None, persistent=False, fault_id="F", base=False):
+        self.exc_class = InjectedInterrupt if base else InjectedFault
         self.k = k
         self.persistent = persistent
         self.calls = 0
@@ -31,7 +43,7 @@ class FaultCounter:
             self.fired += 1
             if self.on_fire is not None:
                 self.on_fire()
-            raise InjectedFault(self.fault_id)
+            raise self.exc_class(self.fault_id)
 
 
 class Faulty:
